@@ -93,6 +93,7 @@ type path struct {
 	nontrivial  bool
 	asserted    bool
 	opaqueN     int
+	decided     map[*Term]bool
 	obsVals     [][]value
 	obsTags     []string
 	obsStrs     []string
@@ -243,7 +244,13 @@ func (i *interpreter) branch(c *Term) bool {
 	}
 	p := i.p
 	ts := i.ts
+	if v, ok := p.decided[c]; ok {
+		return v
+	}
 	p.nontrivial = true
+	if p.decided == nil {
+		p.decided = map[*Term]bool{}
+	}
 	if p.replaying() {
 		d := p.item.prefix[p.pos]
 		if d.Kind != 'b' {
@@ -257,6 +264,8 @@ func (i *interpreter) branch(c *Term) bool {
 			p.pc = append(p.pc, ts.Not(c))
 		}
 		p.record(d)
+		p.decided[c] = out
+		p.decided[ts.Not(c)] = !out
 		return out
 	}
 	cv := ts.Eval(c, p.model) != 0
@@ -280,6 +289,8 @@ func (i *interpreter) branch(c *Term) bool {
 	} else {
 		p.pc = append(p.pc, ts.Not(c))
 	}
+	p.decided[c] = cv
+	p.decided[ts.Not(c)] = !cv
 	return cv
 }
 
